@@ -373,3 +373,49 @@ Example C13_example_typed_desc :
               [(27, 256, ex_typed_loop, ex_typed_bytes); (15, 257, [], [])];
             sdt_section_value 66 true true 1 2 true 0 0 3 [mk_sdt_svc 10 true false 4 true ex_typed_loop ex_typed_bytes] ] |}.
 Proof. vm_compute. reflexivity. Qed.
+(* ---- the table parsers above are the source ----
+   The six section-body parsers (PAT, PMT with its elementary-stream loop, SDT, NIT with its 12-bit
+   transport_stream_loop_length, EIT, TOT), the dispatch of parsePSISectionSyntaxData on the table id and
+   PSITableID.Type are equal, as computations in the iterator monad and on every iterator whose bytes are in 0..255, to
+   the definitions that go/gen (psigen.go) translates from the CURRENT source of data_pat.go, data_pmt.go, data_sdt.go,
+   data_nit.go, data_eit.go, data_tot.go and data_psi.go into Gen/PsiGen.v, every shift, mask and uintN conversion as
+   written (the Section Variables parseDescriptors, parseDVBTime, parseDVBDurationSeconds instantiated with the models'
+   functions; C14_loop_is_source ties parse_descriptors).  An edit of one of these Go functions -- a shift done on a byte
+   before widening, a changed mask, a loop bound -- regenerates Gen/PsiGen.v and this theorem (Proofs/PsiGenEq.v) stops
+   checking. *)
+Require Import Model.Dvb Gen.PsiGen Proofs.ParseGenBits Proofs.PsiGenSim Proofs.PsiGenEq.
+Theorem C13_parsers_are_source :
+  (forall t, table_type t = PsiGen.PSITableID_Type t) /\
+  (forall e ext, same_on_bytes (parse_pat_section e ext) (PsiGen.parsePATSection e ext)) /\
+  (forall e ext, same_on_bytes (parse_pmt_section e ext) (PsiGen.parsePMTSection parse_descriptors e ext)) /\
+  (forall e ext, same_on_bytes (parse_sdt_section e ext) (PsiGen.parseSDTSection parse_descriptors e ext)) /\
+  (forall ext, same_on_bytes (parse_nit_section ext) (PsiGen.parseNITSection parse_descriptors ext)) /\
+  (forall e ext, same_on_bytes (parse_eit_section e ext)
+                   (PsiGen.parseEITSection parse_dvb_duration_seconds parse_dvb_time parse_descriptors e ext)) /\
+  same_on_bytes parse_tot_section (PsiGen.parseTOTSection parse_dvb_time parse_descriptors) /\
+  (forall h sh e, same_on_bytes (parse_psi_section_syntax_data h sh e)
+                    (PsiGen.parsePSISectionSyntaxData parse_dvb_duration_seconds parse_dvb_time parse_descriptors (Some h) sh e)).
+Proof. exact psi_tables_are_source. Qed.
+Print Assumptions C13_parsers_are_source.
+(* the translated parsers run: the SDT / EIT / TOT example above, decoded by the generated parsePSIData *)
+Example C13_parsers_are_source_inhabited :
+  let sdt := spec_section 66 true true (spec_sdt_body 1 2 true 0 0 3 [(10, true, false, 4, true, []); (11, false, true, 1, false, [])]) in
+  let eit := spec_section 78 true true (spec_eit_body 10 0 true 0 0 1 3 0 78
+               [(7, spec_time_bytes 51544 12 34 56, [bcd_byte 1; bcd_byte 30; bcd_byte 0], 4, false, [])]) in
+  let tot := spec_section 115 false true (spec_tot_body (spec_time_bytes 51544 12 34 56) []) in
+  let pmt := spec_pmt_section true false 1 3 true 0 0 256 [] [(27, 256, []); (15, 8191, [])] in
+  bytes_okb (0 :: sdt ++ eit ++ tot ++ pmt ++ [255]) = true /\
+  run_iter (PsiGen.parsePSIData parse_dvb_duration_seconds parse_dvb_time parse_descriptors) (0 :: sdt ++ eit ++ tot ++ pmt ++ [255]) =
+  parse_psi_data_bytes (0 :: sdt ++ eit ++ tot ++ pmt ++ [255]) /\
+  match parse_psi_data_bytes (0 :: sdt ++ eit ++ tot ++ pmt ++ [255]) with
+  | Ok d => (length (PSIData_Sections d) =? 5)%nat
+  | _ => false
+  end = true.
+Proof. vm_compute. repeat split; reflexivity. Qed.
+
+(* the descriptor loops the table parsers above call parse_descriptors: it and 21 of its 23 body parsers are the source as well.
+   The statement is Proofs/PsiGenDesc2.descriptor_parsers_tie, spelled out as C14_loop_is_source in Props/C14.v. *)
+Require Import Proofs.PsiGenDesc2.
+Theorem C13_descriptors_are_source : descriptor_parsers_tie.
+Proof. exact descriptor_loop_is_source. Qed.
+Print Assumptions C13_descriptors_are_source.
